@@ -74,6 +74,13 @@ class Tally:
         self.by_pattern = {}
         self.samples = []
         self.skipped = 0
+        self.fatal = 0          # behaviours that stopped at a divergence
+        self.by_signature = {}  # one replay file per signature; occurrences are counted here
+
+    def _first(self, sig):
+        key = '%(action)s/%(what)s/%(item)s' % sig
+        self.by_signature[key] = self.by_signature.get(key, 0) + 1
+        return self.by_signature[key] == 1
 
     def add(self, ctx, results, mode):
         for r in results:
@@ -93,6 +100,8 @@ class Tally:
             if r['new_stored'] and len(self.samples) < 6 and sum(1 for x in self.samples if x[0] == mode) < 2:
                 self.samples.append([mode, '%s/%s' % (r['storage'], r['pattern'])] + r['sig'][:20])
             for sm in r.get('soft', ()):
+                if not self._first({'action': 'LoadElsewhere', 'what': sm['what'], 'item': sm['item']}):
+                    continue
                 ctx.violation({'action': 'LoadElsewhere', 'what': sm['what'], 'item': sm['item']},
                               '%s: %s storage, oid pattern %s, behaviour %s: %s' % (
                                   mode, r['storage'], r['pattern'], ' '.join(r['sig'][:16]), sm['detail']),
@@ -100,7 +109,10 @@ class Tally:
                                       'fnodes': r['fnodes'], 'prefix': r['sig'], 'source': r.get('source')})
             mm = r['mismatch']
             if mm:
+                self.fatal += 1
                 sig = {'action': G_ALIAS.get(mm['action'], mm['action']), 'what': mm['what'], 'item': mm['item']}
+                if not self._first(sig):
+                    continue
                 ctx.violation(sig, '%s: %s storage, oid pattern %s, step %d %s%s: %s' % (
                     mode, r['storage'], r['pattern'], mm['step'], mm['action'], mm['args'], mm['detail']),
                     replay={'mode': mode, 'storage': r['storage'], 'pattern': r['pattern'], 'opts': r['opts'],
@@ -128,9 +140,9 @@ def _replay_job(job):
 def replay_jobs(ctx, tally, jobs, mode, chunksize, batch=1600, enough=40):
     """Replay in batches; once the run is red beyond doubt the remaining behaviours are skipped (and counted)."""
     for i in range(0, len(jobs), batch):
-        if len(ctx.violations) >= enough:
+        if tally.fatal >= enough:
             tally.skipped += len(jobs) - i
-            ctx.notes.append('%s: %d behaviours not replayed after %d violations' % (mode, len(jobs) - i, len(ctx.violations)))
+            ctx.notes.append('%s: %d behaviours not replayed after %d diverging behaviours' % (mode, len(jobs) - i, tally.fatal))
             return
         tally.add(ctx, graph_par.pmap(_replay_job, jobs[i:i + batch], ctx.scratch, chunksize=chunksize, on_death=_died), mode)
 
@@ -265,6 +277,7 @@ def run(ctx):
         'graph_cases': ncases,
         'programs': nprog,
         'skipped_after_violations': tally.skipped,
+        'divergences_by_signature': tally.by_signature,
         'exhaustive': False,
         'exhaustive_note': 'the graph configurations are replayed completely (every case TLC enumerates); the 4-node programs are sampled',
         'actions': tally.actions,
